@@ -35,7 +35,9 @@ RULE = ("valid streams of 0-4 chunks (an empty chunk included) x one fault: inva
         "table, create} x count dtype, verdict decided by the value of the record as written; missing ids (float NaN, Int64 pd.NA: regression inputs of repaired D36), "
         "an infinite id and a missing id / count column through every API x {DataFrame, dict}; every run under one combination of the optional creation arguments "
         "{metadata none / {} / dict / list} x {assembly} x {h5opts} x {extra value column} x {dtypes} (+ max_merge for unordered), rotating through the "
-        "full cross (thorough: full cross on representative faults); merge_coolers and coarsen_cooler with a corrupted input as producers; zoomify_cooler and `cooler zoomify` as producers: "
+        "full cross (thorough: full cross on representative faults); failed and completed writes (create_cooler ordered / unordered, merge_coolers, coarsen_cooler; mode a and r+) aimed at a new level and at an "
+        "existing non-cooler group under /resolutions of an .mcool and at a new cell of an .scool, observed through is_cooler, list_coolers, "
+        "`cooler ls` and Cooler(dest); merge_coolers and coarsen_cooler with a corrupted input as producers; zoomify_cooler and `cooler zoomify` as producers: "
         "1-3 base coolers, an invalid stored record (lower-triangle pixel of a symmetric-upper base, out-of-range id written raw, duplicate) in the "
         "first / second / third base, nested and non-nested resolution lists, chunk sizes 1/2/7/1000 (expected verdict computed from the coarse "
         "coordinates the record is mapped to); "
@@ -46,7 +48,8 @@ RESIDUE = ["a process killed inside an HDF5 write (torn file) is outside the mod
            "merge / coarsen as producers surface as an iterator exception and are covered only in that form",
            "a destination that already held a cooler is outside the property (a root destination keeps its stale format attribute); compared model-vs-code only"]
 
-NAMES = {1: "a", 2: "b", 3: "g", 4: "sub", 7: "y", 8: "x", 9: "new"}
+NAMES = {1: "a", 2: "b", 3: "g", 4: "sub", 7: "y", 8: "x", 9: "new",
+         20: "resolutions", 21: "5", 22: "10", 23: "20", 24: "stub", 30: "cells", 31: "c1", 32: "c2", 33: "c3"}
 WIDTHS = [[5, 5, 2], [4]]          # 4 bins
 NB = 4
 
@@ -63,6 +66,7 @@ def pstr(p):
 def build_templates(d):
     import cooler
     import h5py
+    import pandas as pd
     bins = G.bins_for(WIDTHS)
     px = {"bin1_id": np.array([0, 1, 3]), "bin2_id": np.array([1, 1, 3]), "count": np.array([4, 5, 6])}
     multi = str(d / "tpl_multi.cool")
@@ -79,13 +83,29 @@ def build_templates(d):
     rootc = str(d / "tpl_rootcooler.cool")
     cooler.create_cooler(rootc, bins, px, metadata={"who": "root"})
     cooler.create_cooler(rootc + "::/b", bins, px, mode="a")
-    return {"multi": multi, "rootcooler": rootc, "newfile": None}
+    # a multi-resolution file as zoomify_cooler lays it out (root format attribute HDF5::MCOOL, levels under /resolutions),
+    # plus a plain non-cooler group under /resolutions
+    base = str(d / "tpl_base.cool")
+    cooler.create_cooler(base, bins, px)
+    mcool = str(d / "tpl.mcool")
+    cooler.zoomify_cooler(base, mcool, [5, 10], chunksize=10)
+    with h5py.File(mcool, "r+") as f:
+        g = f["resolutions"].create_group("stub")
+        g.attrs["note"] = "not a level"
+        g.create_dataset("d", data=np.arange(3))
+    os.remove(base)
+    # a single-cell file (root format HDF5::SCOOL, cells under /cells)
+    scool = str(d / "tpl.scool")
+    cooler.create_scool(scool, bins, {"c1": pd.DataFrame(px), "c2": pd.DataFrame({k: v[:2] for k, v in px.items()})})
+    return {"multi": multi, "rootcooler": rootc, "newfile": None, "mcool": mcool, "scool": scool}
 
 
 SCEN_GROUPS = {   # tracked groups existing before: path -> is a cooler
     "newfile": {},
     "multi": {(): False, (1,): True, (2,): True, (3,): False, (3, 4): False},
     "rootcooler": {(): True, (2,): True},
+    "mcool": {(): False, (20,): False, (20, 21): True, (20, 22): True, (20, 24): False},
+    "scool": {(): False, (30,): False, (30, 31): True, (30, 32): True},
 }
 
 TARGETS = [  # (scenario, dest, mode, in_property_scope)
@@ -95,7 +115,11 @@ TARGETS = [  # (scenario, dest, mode, in_property_scope)
     ("multi", (3, 9), "a", True), ("multi", (1, 9), "a", True), ("multi", (9,), "w", True),
     ("rootcooler", (9,), "a", True),
     ("multi", (1,), "a", False), ("rootcooler", (), "a", False),
+    # directory layouts with a listing convention: a new level / an existing non-cooler group under /resolutions of an .mcool,
+    # a new cell under /cells of an .scool (indices >= LAYOUT0)
+    ("mcool", (20, 23), "a", True), ("mcool", (20, 23), "r+", True), ("mcool", (20, 24), "a", True), ("scool", (30, 33), "a", True),
 ]
+LAYOUT0 = 14
 
 
 NMAIN = 5
@@ -145,13 +169,22 @@ def observe(path, paths):
     import h5py
     from cooler import fileops
     if not os.path.exists(path):
-        return {pstr(p): (False, False, False, None) for p in paths}, []
+        return dict({pstr(p): (False, False, False, None) for p in paths}, __ls__=[]), []
     tracked = {pstr(p) for p in paths}
     st, val = G.guarded(lambda: fileops.list_coolers(path), 30)
     if st != "ok":          # a crash of the listing is an observation, not a harness error
         val = ["<list_coolers raised " + st + ">"]
     listing = [("/" + x.strip("/")) if x != "/" else "/" for x in val]
-    out = {}
+
+    def _ls():
+        from click.testing import CliRunner
+        from cooler.cli import cli
+        res = CliRunner().invoke(cli, ["ls", path])
+        if res.exit_code != 0:
+            raise RuntimeError(f"exit code {res.exit_code}")
+        return [ln.split("::", 1)[1] for ln in res.output.splitlines() if "::" in ln]
+    st, val = G.guarded(_ls, 30)
+    out = {"__ls__": sorted(val) if st == "ok" else ["<cooler ls failed: " + str(val)[:60] + ">"]}
     with h5py.File(path, "r") as f:
         for p in paths:
             s = pstr(p)
@@ -361,10 +394,10 @@ def impl_run(case, tpl, workdir):
     else:
         st, msg = G.guarded(lambda: cooler.create_cooler(uri, G.bins_for(WIDTHS), pixels, **kw), 60)
     after, listing = observe(path, paths)
-    opens, _ = G.guarded(lambda: cooler.Cooler(uri).info, 20)
+    opens, info_ = G.guarded(lambda: dict(cooler.Cooler(uri).info), 20)
     leftovers = sorted(fn for fn in os.listdir(workdir) if fn != "t.cool")
     return {"result": "ok" if st == "ok" else G.err_kind_of_message(st, msg), "before": before, "after": after, "listing": listing,
-            "cooler_opens": opens == "ok", "leftovers": leftovers}
+            "cooler_opens": opens == "ok", "cooler_format": info_.get("format") if opens == "ok" else None, "leftovers": leftovers}
 
 
 def producer_run(case, path, uri, paths, before, workdir):
@@ -391,12 +424,12 @@ def producer_run(case, path, uri, paths, before, workdir):
         fn = lambda: cooler.coarsen_cooler(in2, uri, 2, chunksize=case.get("mergebuf", 2), **kw)        # noqa: E731
     st, msg = G.guarded(fn, 60)
     after, listing = observe(path, paths)
-    opens, _ = G.guarded(lambda: cooler.Cooler(uri).info, 20)
+    opens, info_ = G.guarded(lambda: dict(cooler.Cooler(uri).info), 20)
     for fn_ in (in1, in2):
         os.remove(fn_)
     leftovers = sorted(x for x in os.listdir(workdir) if x != "t.cool")
     return {"result": "ok" if st == "ok" else G.err_kind_of_message(st, msg), "before": before, "after": after, "listing": listing,
-            "cooler_opens": opens == "ok", "leftovers": leftovers}
+            "cooler_opens": opens == "ok", "cooler_format": info_.get("format") if opens == "ok" else None, "leftovers": leftovers}
 
 
 def file_lit(scen):
@@ -458,7 +491,11 @@ def oracle(case, out):
             ex, isc, listed, _ = out["after"][pstr(dest)]
             if isc or listed:
                 bad.append(("destination recognised or listed as a cooler after a failed creation", False, [isc, listed]))
-    if case["mode"] == "a":
+            if pstr(dest) in out["after"]["__ls__"]:
+                bad.append(("`cooler ls` prints the destination after a failed creation", "not printed", out["after"]["__ls__"]))
+            if out.get("cooler_format") is not None:
+                bad.append(("Cooler(dest) presents the half-written destination with a format attribute", None, out["cooler_format"]))
+    if case["mode"] in ("a", "r+"):
         for p, was_cooler in SCEN_GROUPS[case["scenario"]].items():
             under = (p == ()) if not dest else (p[:len(dest)] == dest)
             if under:
@@ -496,6 +533,7 @@ def check(ctx, case, out, mv):
         if isc != listed:
             ctx.disagree(f"is_cooler and list_coolers differ on {pstr(p)}", case, [isc, listed], "equal")
     ctx.compare("list_coolers", case, out["listing"], sorted(pstr(tuple(p)) for p in list_m))
+    ctx.compare("`cooler ls` lists what list_coolers lists", case, out["after"]["__ls__"], out["listing"])
     bad = oracle(case, out)
     if bad:
         ctx.fail(case, {"violations": [[str(x)[:300] for x in b_] for b_ in bad[:4]]}, None)
@@ -593,11 +631,25 @@ def gen_cases(ctx):
                 scen, dest, mode, scope = TARGETS[ti]
                 cases.append({"scenario": scen, "dest": list(dest), "mode": mode, "in_scope": scope, "symm": True, "ordered": True, "api": "create",
                               "stream": si, "fault": list(fault) if fault else None, "items": apply_fault(BASE_STREAMS[si], fault), "chunkform": "dict"})
+    # failed (and completed) writes aimed at a level of an .mcool / a cell of an .scool, then the listing observables
+    k = 0
+    for ti in range(LAYOUT0, len(TARGETS)):
+        scen, dest, mode, scope = TARGETS[ti]
+        for si, fault in ((2, None), (2, ("record", "excess", 1, 1, [1, NB, [1]])), (4, ("record", "tril", 2, 0, [3, 1, [1]])), (2, ("raise", 1)),
+                          (2, ("raise", 0)), (3, ("range", 2)), (2, ("record", "dup", 1, 2, [2, 2, [9]]))):
+            k += 1
+            c = {"scenario": scen, "dest": list(dest), "mode": mode, "in_scope": scope, "symm": True, "ordered": True, "stream": si,
+                 "fault": list(fault) if fault else None, "items": apply_fault(BASE_STREAMS[si], fault), "chunkform": ["dict", "df"][k % 2]}
+            if k % 3 == 0:
+                c["uri_noslash"] = True
+            cases.append(c)
+            if fault is not None and fault[0] == "raise" and mode == "a":
+                cases.append(dict(c, ordered=False, mergebuf=2))
     # merge_coolers / coarsen_cooler as producers (their failure reaches create() as a failing chunk of the stream)
     k = 0
     for producer in ("merge", "coarsen"):
         for fault in (None, ["producer", "corrupt-input", 3], ["producer", "corrupt-input", 1]):
-            for ti in ((1, 0, 4, 2, 3) if thorough else (1, 0, 4)):
+            for ti in ((1, 0, 4, 2, 3) + tuple(range(LAYOUT0, len(TARGETS))) if thorough else (1, 0, 4) + tuple(range(LAYOUT0, len(TARGETS)))):
                 k += 1
                 scen, dest, mode, scope = TARGETS[ti]
                 cases.append({"scenario": scen, "dest": list(dest), "mode": mode, "in_scope": scope, "symm": True, "ordered": True, "rep_case": True,
